@@ -3,7 +3,9 @@
 import json, os, sys
 ROOT = os.path.dirname(os.path.dirname(os.path.abspath(__file__)))
 sys.path.insert(0, os.path.join(ROOT, "props"))
-import registry
+import registry, glob
+for f in glob.glob(os.path.join(ROOT, 'props', 'reg', '*.json')):
+    registry.PROPS[os.path.basename(f)[:-5]] = json.load(open(f))
 ids = [json.loads(l)["id"] for l in open(os.path.join(ROOT, "properties.jsonl"))]
 checks, na = [], []
 for pid in ids:
@@ -40,4 +42,5 @@ try:
     jsonschema.validate(m, json.load(open("/root/.vp/MANIFEST.schema.json")))
     print("MANIFEST.json valid: %d checks, %d not claimed" % (len(checks), len(na)))
 except ImportError:
-    print("MANIFEST.json written (jsonschema not available to validate)")
+    import subprocess
+    subprocess.call(["python3-vt", "-c", "import json,jsonschema;jsonschema.validate(json.load(open('%s/MANIFEST.json')),json.load(open('/root/.vp/MANIFEST.schema.json')));print('MANIFEST.json valid')" % ROOT])
